@@ -70,11 +70,19 @@ def run(rep, tier):
     nq = sum(len(x["queries"]) for x in allrecs if x["e"] == "Hist")
     if not rep.violations and (nh < 500 or npct < 500):
         raise CheckError("stats driver coverage too small")
-    rep.add(traces_validated_against_impl=ok, records=total, histograms=nh, percentile_calls=npct, bin_queries=nq, exhaustive=True)
+    nhf = len([x for x in allrecs if x["e"] == "HistF"])
+    neq = len([x for x in allrecs if x["e"] == "Hist" and x.get("equidistant", 0) > 0])
+    if not rep.violations and (nhf < 500 or neq < 300):
+        raise CheckError("stats driver coverage too small: %d real-valued histograms, %d equidistant histograms on the lattice" % (nhf, neq))
+    rep.add(traces_validated_against_impl=ok, records=total, histograms=nh, percentile_calls=npct, bin_queries=nq, exhaustive=True,
+            equidistant_histograms_on_lattice=neq, real_valued_histograms=nhf)
     rep.sample([x for x in allrecs if x["e"] == "Hist" and len(x["vals"]) > 2][0])
     rep.sample([x for x in allrecs if x["e"] == "Pct" and len(x["vals"]) > 2][1])
     rep.assume("values are multiples of 1/4, thresholds/queries multiples of 1/64, percentages multiples of 1/8, ratios multiples of 1/8: "
                "every intermediate double is exact and p(n-1)/100 is exact or >= 1/800 away from an integer",
+               "histograms whose thresholds are not on the lattice (equidistant ratios / percentages for any number of bins, exponents with any "
+               "base and epsilon, values at and below epsilon) are re-computed by the driver itself (HistF records: naive partition by the reported "
+               "thresholds, tolerance 1e-12 on means / medians / thresholds); the vector accessors are compared with the per-bin getters by the driver",
                "thresholds derived from exponents are not re-derived (log/pow); the bin clauses are checked against the reported thresholds; "
                "the standard deviation slot of ml::store_stats (sqrt) is not checked")
 
